@@ -1,5 +1,5 @@
 """C07 - identical data is stored once."""
-from harness import cli_hist, core, repo_hist
+from harness import cli_hist, core, remote_hist, repo_hist
 from harness.core import Report
 
 RULE = ('cases = crash-free multi-user histories with heavy content overlap (identical files, shared blocks, repeated snapshots of '
@@ -21,6 +21,8 @@ def _run(ctx, n, nops, rep, concurrent=None):
     rep.violations[:] = [v for v in rep.violations if v['signature']['kind'] in MINE]
     # the same property through the tool as a user runs it: fresh `python -m replicat` processes, a repository on disk, real faults
     cli_hist.run_scenarios(ctx, rep, {'plain': ctx.scale(6, 60)}, CLI_MINE)
+    # and over the remote adapters (B2 by bucket name and by bucket id, S3-compatible) against in-memory fake services
+    remote_hist.remote_probe(ctx, rep, ('exception', 'repeat_uploaded_payload', 'not_exact'))
 
 
 def run(ctx) -> Report:
@@ -40,6 +42,12 @@ def replay(ctx, obj):
     rc = cli_hist.replay_cli(ctx, obj, CLI_MINE)
     if rc is not None:
         return rc
+    if (obj.get('replay') or {}).get('probe') == 'remote':
+        rep = Report(rule=RULE)
+        remote_hist.remote_probe(ctx, rep, ('exception', 'repeat_uploaded_payload', 'not_exact'), deployments=[obj['replay']['deployment']])
+        for v in rep.violations:
+            print('VIOLATION-REPRODUCED', v['what'])
+        return 1 if rep.violations else 0
     rep = Report(rule=RULE)
     seed = (obj.get('replay') or {}).get('seed')
     if seed is None:
